@@ -210,6 +210,13 @@ func (c *pkGen) genRecv(s *pkSnap) string {
 		if k == ci {
 			c.r.Hit("recv/forward-back-over-the-same-channel")
 		}
+		if strings.HasPrefix(den, "b") && den != "b"+strconv.Itoa(1+ci) && den != "b"+strconv.Itoa(1+k) {
+			// a hub-side token coming back and forwarded in escrow: if that forward is refunded, packet-forward
+			// v8.1.0 lowers ibc-go's total-escrow counter although the coins only move to the inbound channel's
+			// escrow; a later unescrow then panics (known finding C04/escrow/..., directed trace
+			// corpus/C04/pfm-refund-lowers-total-escrow.ops).  The model has no such counter: not generated.
+			den = "f"
+		}
 		memo = "fw:c" + strconv.Itoa(k)
 		c.r.Hit("recv/forward-memo")
 	}
@@ -226,6 +233,10 @@ func (c *pkGen) genSend(s *pkSnap) string {
 	amt := c.amount()
 	if c.g.Chance(4) {
 		amt = 0
+	}
+	if c.g.Chance(7) {
+		c.r.Hit("send/receiver-is-a-blocked-hub-address")
+		return fmt.Sprintf("sendblk %s c%d den=%s amt=%d", a, ci, den, amt)
 	}
 	return fmt.Sprintf("send %s c%d den=%s amt=%d", a, ci, den, amt)
 }
@@ -618,7 +629,7 @@ func (c *pkGen) genFauth(s *pkSnap) string {
 
 func (c *pkGen) next(s *pkSnap) string {
 	w := map[string]int{"recv": 22, "send": 8, "ack": 6, "timeout": 4, "fin": 10, "finkey": 5, "fulfill": 9, "updfee": 4,
-		"lpcreate": 4, "lpdel": 1, "ondemand": 6, "grant": 3, "fauth": 6, "state": 6, "finstate": 6, "fork": 2, "epoch": 2, "block": 7, "chanclose": 1, "chanopen": 1}
+		"lpcreate": 4, "lpdel": 1, "ondemand": 6, "grant": 3, "fauth": 6, "state": 6, "finstate": 6, "fork": 2, "epoch": 2, "block": 7, "chanclose": 1, "chanopen": 1, "timeoutclose": 1}
 	if c.focus == "C04" {
 		w["fin"], w["finkey"], w["recv"], w["ack"], w["timeout"] = 16, 8, 26, 8, 6
 		w["chanclose"], w["chanopen"] = 3, 3
@@ -630,7 +641,7 @@ func (c *pkGen) next(s *pkSnap) string {
 		w["fulfill"], w["fauth"], w["ondemand"], w["updfee"], w["lpcreate"], w["grant"] = 12, 10, 9, 6, 6, 4
 	}
 	order := []string{"recv", "send", "ack", "timeout", "fin", "finkey", "fulfill", "updfee", "lpcreate", "lpdel", "ondemand", "grant", "fauth",
-		"state", "finstate", "fork", "epoch", "block", "chanclose", "chanopen"}
+		"state", "finstate", "fork", "epoch", "block", "chanclose", "chanopen", "timeoutclose"}
 	tot := 0
 	for _, k := range order {
 		tot += w[k]
@@ -732,6 +743,9 @@ func (c *pkGen) next(s *pkSnap) string {
 			}
 		}
 		return fmt.Sprintf("chanclose c%d", c.chanIdx())
+	case "timeoutclose":
+		l := strings.Fields(c.genAck(s, true))
+		return fmt.Sprintf("timeoutclose %s %s", l[1], l[2])
 	case "chanopen":
 		if len(s.Closed) > 0 && c.g.Chance(85) {
 			return "chanopen " + s.Closed[c.g.Intn(len(s.Closed))]
